@@ -111,6 +111,13 @@ structure Mon where
   meter : Meter := {}
   /-- the leader of the cluster's shard known from the server info (0: none) -/
   leader : Nat := 0
+  /-- the time of the last timed operation (ns) -/
+  clock : Int := 0
+  /-- an upper bound (unix seconds) of the counter's `lastSyncTime`: the latest moment a counter can have been created
+      (an effective sync) or answered (a tick whose request was answered) -/
+  contact : Int := 0
+  /-- an event MAY be pending on the counter: one was raised and no tick has consumed it since -/
+  mayEvent : Bool := false
   deriving Repr, Inhabited
 
 /-- does this server-info sync publish ANOTHER leader for the cluster's shard than the one known? Only then does it
@@ -149,7 +156,18 @@ def Mon.next (m : Mon) (op : Op) (o : Obs) : Mon :=
     shards := match op with | .shards n => n | .sync false n _ _ => n | _ => m.shards
     synced := synced', gs := gs', ob := ob', prev := o
     meter := match op with | .meter x => x | _ => m.meter
-    leader := match leaderChange m op with | some (l, _) => l | none => m.leader }
+    leader := match leaderChange m op with | some (l, _) => l | none => m.leader
+    clock := match op with
+      | .hb _ now false => now
+      | .sync _ _ _ now => now
+      | .tick now _ => now
+      | _ => m.clock
+    contact :=
+      if effective m op then (if m.contact < unixS m.clock then unixS m.clock else m.contact)
+      else match op with
+        | .tick now (some _) => if o.req.isSome then (if m.contact < unixS now then unixS now else m.contact) else m.contact
+        | _ => m.contact
+    mayEvent := match op with | .event => true | .tick _ _ => false | _ => m.mayEvent }
 
 def expectedChoice (cfg : Cfg) (m : Mon) : Choice :=
   match m.schema with
@@ -225,9 +243,27 @@ def judgePost (cfg : Cfg) (m' : Mon) (o : Obs) : List String :=
         if l.kind ≠ guessType s then ["c09.answer-type-mismatch"]
         else if Lim.leb l m'.ob then [] else ["c09.cap-exceeds-global"]))
 
+/-- judgements about one round of the counter manager (`Op.tick`):
+* `c09.no-request-when-due` — **the instance keeps asking**: while a count wrapper exists, a round that comes more
+  than 2 s (unix seconds) after the last possible creation/answer of the counter must send a request for the flow
+  control — degraded or not, idle or not, reserve full or not — unless an event may be pending (a token-bucket
+  counter with a pending event and nothing to ask for consumes the event first and resyncs in the next round).
+  Without that request no accepted answer can ever arrive and a degraded limiter would stay degraded for ever.
+* the answer to the request goes through `SetLimit` like any acquire result (`judgeSetLimit`: recovery, error
+  fallback, stale replies), with the round's time as its request time. -/
+def judgeTick (m : Mon) (now : Int) (ans : Option TickAnswer) (o : Obs) : List String :=
+  let p := m.prev
+  (if (p.wkind = 2 ∨ (p.wkind = 3 ∧ m.mayEvent = false)) ∧ unixS now - m.contact > 2 ∧ o.req.isNone
+   then ["c09.no-request-when-due"] else []) ++
+  (match ans, o.req with
+   | some a, some hits =>
+     judgeSetLimit m { hasReq := true, tokens := hits, accept := a.accept, limit := a.limit, err := a.err, rt := now } o
+   | _, _ => [])
+
 /-- clauses about the transition made by `op` from the monitor `m` (before) to the observation `o` (after) -/
 def judgeTrans (m : Mon) (op : Op) (o : Obs) : List String :=
   match op with
+  | .tick now ans => judgeTick m now ans o
   | .answer true item =>
     if effective m op && decide (o.wkind = 1) then
       match m.schema with
